@@ -51,6 +51,9 @@ type ScanChunk struct {
 	// although nothing of it is left (HBase does that when a size limit is hit
 	// exactly at the end of a row: "may have more cells in row").
 	MarkLastPartial bool
+	// EmptyFragment inserts a fragment without cells (cells_per_result 0,
+	// partial) after the first fragment of a row split by SplitFirst.
+	EmptyFragment bool
 }
 
 // DefaultScanPolicy draws a chunking at random.
@@ -77,6 +80,7 @@ func DefaultScanPolicy(x *ScanCtx) ScanChunk {
 	if x.AllowPartials && ch.Rows > 0 && x.NextRowCells > 1 && x.Rand(3) == 0 {
 		a := 1 + x.Rand(x.NextRowCells-1)
 		ch.SplitFirst = []int{a, x.NextRowCells - a}
+		ch.EmptyFragment = x.Rand(3) == 0
 	}
 	ch.EndRegionLater = x.Rand(3) == 0
 	ch.MoreResultsFalse = x.Rand(2) == 0
@@ -275,6 +279,9 @@ func (c *Cluster) handleScan(req *Request) *Reply {
 					n = len(cells) - off
 				}
 				results = append(results, result{cells[off : off+n], !last})
+				if k == 0 && !last && ch.EmptyFragment {
+					results = append(results, result{nil, true})
+				}
 				off += n
 			}
 			if off < len(cells) {
@@ -322,7 +329,11 @@ func (c *Cluster) handleScan(req *Request) *Reply {
 			nPartial++
 		}
 	}
-	info := fmt.Sprintf("results=%d partials=%d", len(results), nPartial)
+	nCells := 0
+	for _, r := range results {
+		nCells += len(r.cells)
+	}
+	info := fmt.Sprintf("results=%d partials=%d cells=%d", len(results), nPartial, nCells)
 	if len(st.rows) == 0 && !(ch.EndRegionLater && len(results) > 0) {
 		resp.MoreResultsInRegion = proto.Bool(false)
 		why := "exhausted-region"
@@ -356,13 +367,21 @@ func (c *Cluster) scanRowsLocked(reg *Region, s *pb.Scan) (rows []scanRow, last 
 	td := c.tables[reg.Table]
 	rev := s.GetReversed()
 	start, stop := s.StartRow, s.StopRow
+	// HBase treats a scan whose start row equals its (non-empty) stop row, sent
+	// by a client that does not know include_stop_row, as a Get of that row
+	// (Scan.isGetScan in 1.x, ProtobufUtil.toScan in 2.x).
+	isGet := len(start) > 0 && bytes.Equal(start, stop)
 	if td != nil {
 		for k, rd := range td.rows {
 			row := []byte(k)
 			if !reg.Contains(row) || len(rd.cells) == 0 {
 				continue
 			}
-			if !rev {
+			if isGet {
+				if !bytes.Equal(row, start) {
+					continue
+				}
+			} else if !rev {
 				if bytes.Compare(row, start) < 0 || (len(stop) > 0 && bytes.Compare(row, stop) >= 0) {
 					continue
 				}
